@@ -11,3 +11,5 @@ import SplinkVerif.Model.EM
 import SplinkVerif.Model.Estimators
 import SplinkVerif.Model.GraphMetrics
 import SplinkVerif.Model.Cache
+import SplinkVerif.Model.Descriptive
+import SplinkVerif.Model.Accuracy
